@@ -1,10 +1,14 @@
-"""C04 — keywords/names/numbers tokenisation. Streams: idrange (all 0x110000 code points), numfmt
-(exhaustive short strings over the numeric alphabet + grammar-derived long strings and their
-single-character mutations), lex (keyword/identifier segmentation; see lexgen)."""
+"""C04 — keywords/names/numbers tokenisation. Streams: idrange (all 0x110000 code points, ascending), idorder (the same
+membership asked in other orders: descending sweep, every range end right after the non-member above it, random short
+sequences), numfmt (exhaustive short strings over the numeric alphabet + grammar-derived long strings and their
+single-character mutations), numname (the same spellings where only a NAME is allowed: MatchIDName), namepos (the
+spellings in every name-only position of a real program), lex (keyword/identifier segmentation; see lexgen)."""
 import itertools, struct
 from fractions import Fraction
 
-RULE = ("idrange: every code point 0..0x10FFFF (exhaustive). numfmt: all strings up to length L over the alphabet "
+RULE = ("idrange: every code point 0..0x10FFFF (exhaustive, ascending); idorder: every code point descending, every range "
+        "boundary approached from the other side, random sequences of 2-6 lookups. numname/namepos: numeric-alphabet strings "
+        "(exhaustive to length 4 / 3) in name-only positions: accepted iff not of number form and not starting like a number. numfmt: all strings up to length L over the alphabet "
         "{0,1,7,+,-,.,e,E,*,^,x} plus generated documented-form numbers and all their single-character edits; "
         "non-trivial = the recogniser consumed at least one character (not immediately a name). "
         "lex: random and exhaustive-short unspaced strings over keyword glyphs, letters, digits, operators, back-ticks; "
@@ -101,6 +105,7 @@ def run(ctx):
     ctx.count('idrange_code_points', ncp)
     ctx.sample({'op': cases[2], 'go': go[2][:60] + '…'})
     ctx.streams.append({'stream': 'idrange', 'cases': len(cases), 'code_points': ncp, 'exhaustive': True})
+    run_idorder(ctx, ''.join(x[3:] for x in spec))
 
     # ---- numfmt --------------------------------------------------------------------------------
     L = 5 if (ctx.quick() and not ctx.escalated) else 6
@@ -159,11 +164,179 @@ def run(ctx):
         ctx.sample({'op': cases[i], 'go': go[i], 'model': model[i], 'spec': spec[i]})
     ctx.streams.append({'stream': 'numfmt', 'cases': len(cases), 'exhaustive_upto_len': L})
     ctx.exhaustive = True
+    run_name_side(ctx, extra)
     try:
         from props import lexgen
         lexgen.run_lex_stream(ctx)
     except ImportError:
         pass
+
+
+# ---- idorder: membership must not depend on what was looked up before --------------------------------------------
+
+def run_idorder(ctx, member):
+    """member: the documented membership of every code point ('0'/'1' string, from the spec's answers to the ascending
+    sweep). The same question in other orders: (1) every code point, descending; (2) for every boundary of the table,
+    the code point on one side right after the one on the other side (both directions), and there-and-back triples;
+    (3) random sequences of 2-6 lookups, drawn mostly from the boundaries. A cache, a moving search window or any other
+    memory of earlier lookups shows here; the failing input is the shortest sequence that still gives the wrong answer."""
+    rng = ctx.rng
+    N = 0x110000
+    step = 8192
+    # (1) descending: chunks submitted from the top, each chunk swept downwards
+    cases = ['idrangedesc %d %d' % (lo, min(lo + step, N)) for lo in range(0, N, step)][::-1]
+    go = ctx.run_go(cases)
+    model = ctx.run_lean(cases)
+    spec = ctx.run_lean(['spec:' + c for c in cases])
+    nviol = 0
+    for c, g, m, sp in zip(cases, go, model, spec):
+        ctx.evaluations += 1
+        if g != m:
+            ctx.disagreement('idorder-desc', c, g[:80], m[:80])
+        if g != sp:
+            # shrink: the wrong answer for code point x came right after the lookup of x+1
+            lo = int(c.split(' ')[1])
+            x = next((lo + i for i, (a, b) in enumerate(zip(g[3:], sp[3:])) if a != b), None)
+            small = None
+            if x is not None and nviol < 3:
+                pair = 'idseq %x.%x' % (x + 1, x)
+                pg = ctx.run_go([pair], parallel=False)[0]
+                ps = ctx.run_lean(['spec:' + pair], parallel=False)[0]
+                if pg != ps:
+                    small = (pair, pg, ps)
+            nviol += 1
+            if small:
+                ctx.violation('idorder-desc', *small)
+            else:
+                ctx.violation('idorder-desc', c, g[:80], sp[:80])
+        if '1' in g[3:]:
+            ctx.nontriv(c)
+    ctx.streams.append({'stream': 'idorder-desc', 'cases': len(cases), 'code_points': N, 'exhaustive': True})
+    # (2) boundaries of the documented table
+    ends = [c for c in range(N - 1) if member[c] == '1' and member[c + 1] == '0']
+    starts = [c for c in range(1, N) if member[c] == '1' and member[c - 1] == '0']
+    seqs = []
+    for e in ends:
+        seqs += [(e + 1, e), (e, e + 1), (e + 1, e, e + 1), (e, e + 1, e)]
+    for b in starts:
+        seqs += [(b - 1, b), (b, b - 1), (b - 1, b, b - 1)]
+    ctx.count('idorder_range_ends', len(ends))
+    ctx.count('idorder_range_starts', len(starts))
+    nb = len(seqs)
+    # (3) random short sequences, mostly around boundaries
+    near = sorted({x for c in ends + starts for x in (c - 1, c, c + 1, c + 2) if 0 <= x < N})
+    for _ in range(ctx.n(4000, 200000)):
+        k = rng.randint(2, 6)
+        seqs.append(tuple(rng.choice(near) if rng.random() < 0.8 else rng.randrange(N) for _ in range(k)))
+    cases = ['idseq ' + '.'.join('%x' % c for c in t) for t in seqs]
+    go = ctx.run_go(cases)
+    model = ctx.run_lean(cases)
+    spec = ctx.run_lean(['spec:' + c for c in cases])
+    for i, (c, g, m, sp) in enumerate(zip(cases, go, model, spec)):
+        ctx.evaluations += 1
+        if g != m:
+            ctx.disagreement('idorder-boundary' if i < nb else 'idorder-random', c, g, m)
+        if g != sp:
+            ctx.violation('idorder-boundary' if i < nb else 'idorder-random', c, g, sp)
+        if '1' in g[3:] and '0' in g[3:]:
+            ctx.nontriv(c)
+    ctx.sample({'op': cases[0], 'go': go[0], 'model': model[0], 'spec': spec[0]})
+    ctx.streams.append({'stream': 'idorder-boundary', 'cases': nb})
+    ctx.streams.append({'stream': 'idorder-random', 'cases': len(cases) - nb})
+
+
+# ---- the name-position side of the numeric form -----------------------------------------------------------------------
+
+def run_name_side(ctx, extra):
+    """`numname`: exec.MatchIDName itself on every string of length <= 4 (quick) over the numeric alphabet, plus the
+    grammar-derived numbers and their single-character edits. `namepos`: the spellings that lex as ONE identifier, written
+    into every position of a program where only a name is allowed (declaration target, method name, parameter, loop
+    variable, 得到 name, type name, callee); Go = model = spec semantics on the program, and the accept/reject verdict of
+    every position = the documented form (`spec:numname`, Spec/NumberForm.lean `classify`)."""
+    from props import progs
+    from zngen import Program, Decl, Func, Iter, Ret, ExprS, Call, Class, Num, Arr, cps as zcps
+    rng = ctx.rng
+    Lq = 4 if (ctx.quick() and not ctx.escalated) else 5
+    strs = [''.join(chr(c) for c in t) for n in range(1, Lq + 1) for t in itertools.product(ALPHA, repeat=n)]
+    pool = strs + rng.sample(list(extra), min(len(extra), ctx.n(15000, 10 ** 9)))    # short ones first: the first failing input is small
+    cases = ['numname ' + cps([ord(c) for c in t]) for t in pool]
+    go = ctx.run_go(cases)
+    model = ctx.run_lean(cases)
+    spec = ctx.run_lean(['spec:' + c for c in cases])
+    verdict = {}
+    for t, c, g, m, sp in zip(pool, cases, go, model, spec):
+        ctx.evaluations += 1
+        verdict[t] = sp
+        ctx.count('numname_' + g.replace(' ', '_'))
+        if g != m:
+            ctx.disagreement('numname', c, g, m)
+        if (g == 'name') != (sp == 'name') or not (g == 'name' or g.startswith('err ')):
+            ctx.violation('numname', c, g, sp)
+        if g != 'name' or t[0] in '+-':
+            ctx.nontriv(c)
+    ctx.sample({'op': cases[-30], 'go': go[-30], 'model': model[-30], 'spec': spec[-30]})
+    ctx.streams.append({'stream': 'numname', 'cases': len(cases), 'exhaustive_upto_len': Lq})
+
+    # ---- in programs -------------------------------------------------------------------------------------------------------
+    Lp = 3
+    short = [''.join(chr(c) for c in t) for n in range(1, Lp + 1) for t in itertools.product(ALPHA, repeat=n)]
+    longer = rng.sample(list(extra), min(len(extra), ctx.n(250, 5000)))
+    # near-misses of the documented form that begin with a sign: the name-only positions must still reject them
+    signed = [sg + b for sg in '+-' for b in ('5', '12.5', '3.5e+2', '2*10^3', '25*^-2', '2X', '1.', '1e5', '0x', '7..', '1*10^')]
+    cand = list(dict.fromkeys(short + signed + longer))
+    # only spellings the lexer reads as one identifier (alone, and before a keyword / a mark) take part
+    lx = ctx.run_go(['lex ' + cps([ord(c) for c in (pre + t + post)]) for t in cand for pre, post in (('', ''), ('令', '设为'))])
+    spell = []
+    for i, t in enumerate(cand):
+        one = 'ok 5:0:%d:%s 0:%d:%d:-' % (len(t), cps([ord(c) for c in t]), len(t), len(t))
+        two = 'ok 40:0:1:- 5:1:%d:%s ' % (len(t) + 1, cps([ord(c) for c in t]))
+        if lx[2 * i].split(' |')[0] == one and lx[2 * i + 1].startswith(two):
+            spell.append(t)
+    ctx.count('namepos_spellings', len(spell))
+    ctx.count('namepos_spellings_not_one_identifier', len(cand) - len(spell))
+
+    def programs(t):
+        seven = [Ret(Num('7'))]
+        return [
+            ('decl', Program([], [Decl([t], Num('100'))] + seven)),
+            ('decl2', Program([], [Decl(['甲', t], Num('100'))] + seven)),
+            ('const', Program([], [Decl([t], Num('100'), const=True)] + seven)),
+            ('method', Program([], [Func(t, [], [Ret(Num('7'))]), Ret(Num('8'))])),
+            ('callee', Program([], [Func('算', [], [Ret(Num('7'))]), Ret(Call(t, []))])),
+            ('param', Program([], [Func('算', [t], [Ret(Num('8'))]), Ret(Call('算', [Num('3')]))])),
+            ('param2', Program([], [Func('算', ['甲', t], [Ret(Num('8'))]), Ret(Call('算', [Num('3'), Num('4')]))])),
+            ('loopvar', Program([], [Iter([t], Arr([Num('1'), Num('2')]), [ExprS(Call('显示', [Num('1')]))])] + seven)),
+            ('loopkv', Program([], [Iter(['键', t], Arr([Num('1'), Num('2')]), [ExprS(Call('显示', [Num('1')]))])] + seven)),
+            ('yield', Program([], [Func('算', [], [Ret(Num('8'))]), ExprS(Call('算', [], yld=t))] + seven)),
+            ('type', Program([], [Class(t, [('甲', Num('1'))], [])] + seven)),
+        ]
+    plist, meta = [], []
+    for t in spell:
+        ps = programs(t)
+        if len(t) > 2 and t not in signed and not (len(t) == 3 and t[0] in '+-'):
+            ps = rng.sample(ps, 2)
+        for pos, p in ps:
+            plist.append((p, {}))
+            meta.append((t, pos))
+    # a program whose tree is not the intended one (the spelling met its neighbours in the lexer) is no name-position case
+    rendered = [p.render(rng) for p, _ in plist]
+    asts = ctx.run_go(['ast ' + zcps(src) for src, _ in rendered])
+    keep = [i for i, (a, (src, sx)) in enumerate(zip(asts, rendered)) if a.startswith('ok ') and progs.strip_lines(a[3:]) == progs.strip_lines(sx)]
+    ctx.count('namepos_programs_tree_not_intended', len(plist) - len(keep))
+    plist = [plist[i] for i in keep]
+    meta = [meta[i] for i in keep]
+    srcs, go, model, spec = progs.run_stream(ctx, 'namepos', plist, nontrivial=lambda src, g: True)
+    want = ctx.run_lean(['spec:numname ' + cps([ord(c) for c in t]) for t, _ in meta])
+    by_spelling = {}
+    for (t, pos), src, g, w in zip(meta, srcs, go, want):
+        # a spelling that is no name ends the run with a semantic error (shown without a code: `err rt 0`); an accepted one
+        # lets the program run on (to its result, or to `not defined` where the name is only used)
+        acc = not g.startswith('err rt 0 ')
+        by_spelling.setdefault(t, set()).add(acc)
+        ctx.count('namepos_%s_%s' % (pos, 'accepted' if acc else 'rejected'))
+        if acc != (w == 'name') or not (g.startswith('ok ') or g.startswith('err ')):
+            ctx.violation('namepos:number-form', 'run %s ' % zcps(src), g, 'the spelling is %s where only a name is allowed (spec:numname)' % w)
+    ctx.count('namepos_spellings_verdict_depends_on_position', sum(1 for v in by_spelling.values() if len(v) > 1))
 
 
 def first_diff(case, a, b):
@@ -178,7 +351,12 @@ def replay(ctx, data):
     case = data['case']
     print('go   :', ctx.run_go([case])[0])
     print('model:', ctx.run_lean([case])[0])
-    if case.startswith('lex '):
-        print('spec :', ctx.run_lean(['spec:segment ' + case.split(' ')[1]])[0], '(documented segmentation; applies to texts of keyword glyphs and name characters)')
+    if case.startswith('run '):
+        from props import progs
+        return progs.replay(ctx, data)
+    if case.startswith('lex2 '):
+        print('spec :', ctx.run_lean(['spec:segmentq ' + case.split(' ')[2]])[0], '(documented segmentation of the second text)')
+    elif case.startswith('lex '):
+        print('spec :', ctx.run_lean(['spec:segmentq ' + case.split(' ')[1]])[0], '(documented segmentation; applies to texts of keyword glyphs, name characters and back-ticked names)')
     else:
         print('spec :', ctx.run_lean(['spec:' + case])[0])
